@@ -19,25 +19,35 @@ Proof.
     + right; right. rewrite K. reflexivity.
 Qed.
 
+Lemma acq_exact_creates : forall l1 l' c, acq_exact l1 c = true -> same4 l1 l' -> creates l' c = true.
+Proof.
+  intros l1 l' c H [a [b [c0 d0]]]. destruct c; cbn in *; try discriminate.
+  rewrite <- a, <- b, <- c0, <- d0. apply andb_true_iff in H. tauto.
+Qed.
+
+Lemma same4_trans : forall a b c, same4 a b -> same4 b c -> same4 a c.
+Proof. intros a b c [a1 [a2 [a3 a4]]] [b1 [b2 [b3 b4]]]. repeat split; congruence. Qed.
+
 Lemma cmds_new : forall cs d d' l',
     locks_uniq d -> exec_cmds d cs = Some d' -> In l' (locks d') ->
-    In l' (locks d) \/ existsb (creates l') (map fst cs) = true \/
+    In l' (locks d) \/ existsb (acq_exact l') (map fst cs) = true \/
+    (existsb (creates l') (map fst cs) = true /\ existsb (hb_for l') (map fst cs) = true) \/
     (existsb (hb_for l') (map fst cs) = true /\ exists l, In l (locks d) /\ same4 l l').
 Proof.
   induction cs as [|[c h] cs IH]; intros d d' l' U H Hl; cbn in *.
   - inversion H; subst; tauto.
   - destruct (exec d c h) as [[d1 r]|] eqn:E; [|discriminate].
-    destruct (IH d1 d' l' (exec_uniq _ _ _ _ _ U E) H Hl) as [K|[K|[K [l1 [Hl1 S1]]]]].
+    destruct (IH d1 d' l' (exec_uniq _ _ _ _ _ U E) H Hl) as [K|[K|[[K1 K2]|[K [l1 [Hl1 S1]]]]]].
     + destruct (lock_new_justified d c h d1 r l' U E K) as [J|[J|[J [l0 [Hl0 S0]]]]]; [tauto| |].
       * right; left. rewrite J. reflexivity.
-      * right; right. split; [rewrite J; reflexivity|]. exists l0. tauto.
+      * right; right; right. split; [rewrite J; reflexivity|]. exists l0. tauto.
     + right; left. rewrite K. apply orb_true_r.
+    + right; right; left. rewrite K1, K2, !orb_true_r. tauto.
     + destruct (lock_new_justified d c h d1 r l1 U E Hl1) as [J|[J|[J [l0 [Hl0 S0]]]]].
-      * right; right. split; [rewrite K; apply orb_true_r|]. exists l1. tauto.
-      * right; left. destruct S1 as [a1 [b1 _]]. destruct c; cbn in J; try discriminate. cbn.
-        rewrite <- a1, <- b1. rewrite J. reflexivity.
-      * right; right. split; [rewrite K; apply orb_true_r|]. exists l0. split; [assumption|].
-        destruct S0 as [a [b [c0 d0]]], S1 as [a1 [b1 [c1 d1']]]. repeat split; congruence.
+      * right; right; right. split; [rewrite K; apply orb_true_r|]. exists l1. tauto.
+      * right; right; left. rewrite (acq_exact_creates l1 l' c J S1), K, orb_true_r. tauto.
+      * right; right; right. split; [rewrite K; apply orb_true_r|]. exists l0. split; [assumption|].
+        eapply same4_trans; eassumption.
 Qed.
 
 (* ---------- booleans of the monitor ---------- *)
@@ -90,9 +100,10 @@ Proof.
     - rewrite K. apply orb_true_r. }
   rewrite Hb. cbn.
   match goal with |- (if ?b then _ else _) = _ => assert (Hc : b = true) end.
-  { apply forallb_forall. intros l' Hl'. destruct (cmds_new _ d d' l' U H Hl') as [K|[K|[K [l [Hl S]]]]].
+  { apply forallb_forall. intros l' Hl'. destruct (cmds_new _ d d' l' U H Hl') as [K|[K|[[K1 K2]|[K [l [Hl S]]]]]].
     - rewrite in_existsb_lock by assumption. reflexivity.
     - rewrite K. rewrite orb_true_r. reflexivity.
+    - rewrite K1, K2. cbn. rewrite orb_true_r. reflexivity.
     - rewrite K. cbn. assert (existsb (same4b l') (locks d) = true) as ->.
       { apply existsb_exists. exists l. split; [assumption|apply same4_b; assumption]. }
       apply orb_true_r. }
@@ -105,7 +116,8 @@ Proof.
   assert (forallb (fun l => existsb (lock_eqb l) (locks d) || (l_exp l <=? now) || existsb (touches l) cmds) (locks d) = true) as ->.
   { apply forallb_forall. intros l Hl. rewrite in_existsb_lock by assumption. reflexivity. }
   cbn.
-  assert (forallb (fun l' => existsb (lock_eqb l') (locks d) || existsb (creates l') cmds ||
+  assert (forallb (fun l' => existsb (lock_eqb l') (locks d) || existsb (acq_exact l') cmds ||
+                             (existsb (creates l') cmds && existsb (hb_for l') cmds) ||
                              (existsb (hb_for l') cmds && existsb (same4b l') (locks d))) (locks d) = true) as ->.
   { apply forallb_forall. intros l Hl. rewrite in_existsb_lock by assumption. reflexivity. }
   reflexivity.
